@@ -931,7 +931,10 @@ TEMPLATES = {
     "mass": "dx", "stiffness": "dx", "helmholtz-coefficient": "dx", "elasticity": "dx", "convection": "dx", "hyperelastic-derivative": "dx",
     "mixed-poisson": "dx", "curl-curl": "dx", "stokes": "dx", "coefficient-product": "dx",
     "dg-avg-avg": "dS", "dg-jump-jump": "dS", "dg-interior-penalty": "dS", "dg-upwind": "dS", "nitsche-boundary": "ds", "facet-normal-flux": "ds",
+    # complex mode only
+    "helmholtz-impedance": "ds", "complex-vertex-mass": "dP",
 }
+COMPLEX_TEMPLATES = ("helmholtz-impedance", "complex-vertex-mass")
 
 
 @st.composite
@@ -942,9 +945,17 @@ def template_specs(draw, profile=None):
     names = [n for n, m in TEMPLATES.items() if m in pr["measures"] or (m == "dx" and "dx" in pr["measures"])]
     if pr.get("templates"):
         names = [n for n in names if n in pr["templates"]]
+    if not pr.get("complex"):
+        names = [n for n in names if n not in COMPLEX_TEMPLATES]
+    else:
+        names = [n for n in names if n not in ("dg-upwind", "hyperelastic-derivative")]  # abs() of complex values; Gateaux derivative of a non-holomorphic energy
+    if pr.get("complex"):
+        names = names + [n for n in names if n in COMPLEX_TEMPLATES] * 3
     name = draw(st.sampled_from(names))
     simplex_only = name in ("mixed-poisson", "curl-curl", "stokes")
     cells = [c for c in pr["cells"] if c != "prism" and not (simplex_only and c not in ("triangle", "tetrahedron"))]
+    if name == "helmholtz-impedance":
+        cells = [c for c in cells]  # all cells incl. the interval (point facets: no geometric scale factor)
     if name in ("elasticity", "convection", "hyperelastic-derivative", "stokes", "curl-curl", "dg-upwind", "facet-normal-flux", "nitsche-boundary", "dg-interior-penalty"):
         cells = [c for c in cells if TDIM[c] >= 2]
     cell = draw(st.sampled_from(cells))
@@ -955,6 +966,7 @@ def template_specs(draw, profile=None):
     P = ["el", "P", deg, {"dc": True} if dc else {}]
     vecP = ["el", "P", deg, {"shape": [gdim]}]
     u, v, f, g_ = ["u"], ["v"], ["f", 0], ["f", 1]
+    cj = (lambda t: ["conj", t]) if pr.get("complex") else (lambda t: t)  # test-function factors outside inner() are conjugated in complex mode
     spec = {"kind": "form", "cell": cell, "gdim": gdim, "cdeg": cdeg, "elements": [P], "args": [0, 0], "coefs": [], "consts": [], "integrals": []}
     md = {"quadrature_degree": draw(st.integers(max(1, deg), 2 * deg + 1))} if draw(st.booleans()) else {}
 
@@ -973,11 +985,11 @@ def template_specs(draw, profile=None):
     elif name == "elasticity":
         spec["elements"] = [vecP]
         eps_u, eps_v = ["sym", ["grad", u]], ["sym", ["grad", v]]
-        add("dx", ["add", ["mul", ["lit", 2.0], ["inner", eps_u, eps_v]], ["mul", ["lit", 0.5], ["mul", ["div", u], ["div", v]]]])
+        add("dx", ["add", ["mul", ["lit", 2.0], ["inner", eps_u, eps_v]], ["mul", ["lit", 0.5], ["mul", ["div", u], cj(["div", v])]]])
     elif name == "convection":
         spec["elements"] = [P, vecP]
         spec["coefs"] = [1]
-        add("dx", ["mul", ["dot", f, ["grad", u]], v])
+        add("dx", ["mul", ["dot", f, ["grad", u]], cj(v)])
     elif name == "hyperelastic-derivative":
         spec["elements"] = [vecP]
         spec["args"] = [0]
@@ -1004,28 +1016,28 @@ def template_specs(draw, profile=None):
         for j, E in enumerate(chosen):
             fj = ["f", j] if not E[3].get("shape") else ["idx", ["f", j], draw(st.integers(0, gdim - 1))]
             prod = fj if prod is None else ["mul", prod, fj]
-        add("dx", ["mul", prod, v] if len(spec["args"]) == 1 else ["mul", prod, ["inner", u, v]])
+        add("dx", ["mul", prod, cj(v)] if len(spec["args"]) == 1 else ["mul", prod, ["inner", u, v]])
     elif name == "mixed-poisson":
         rt = draw(st.sampled_from(["RT", "BDM"]))
         spec["elements"] = [["mixed", [["el", rt, deg if deg < 3 else 2, {}], ["el", "P", max((deg if deg < 3 else 2) - 1, 0), {"dc": True}]]]]
         s_, p_ = ["split", u, 0], ["split", u, 1]
         t_, q_ = ["split", v, 0], ["split", v, 1]
-        add("dx", ["add", ["add", ["inner", s_, t_], ["mul", ["div", t_], p_]], ["mul", ["div", s_], q_]])
+        add("dx", ["add", ["add", ["inner", s_, t_], ["mul", cj(["div", t_]), p_]], ["mul", ["div", s_], cj(q_)]])
     elif name == "curl-curl":
         spec["elements"] = [["el", "N1curl", min(deg, 2), {}]]
         add("dx", ["add", ["inner", ["curl", u], ["curl", v]], ["inner", u, v]])
     elif name == "stokes":
         spec["elements"] = [["mixed", [["el", "P", 2, {"shape": [gdim]}], ["el", "P", 1, {}]]]]
         uu, pp, vv, qq = ["split", u, 0], ["split", u, 1], ["split", v, 0], ["split", v, 1]
-        add("dx", ["sub", ["sub", ["inner", ["grad", uu], ["grad", vv]], ["mul", ["div", vv], pp]], ["mul", qq, ["div", uu]]])
+        add("dx", ["sub", ["sub", ["inner", ["grad", uu], ["grad", vv]], ["mul", cj(["div", vv]), pp]], ["mul", cj(qq), ["div", uu]]])
     elif name == "dg-avg-avg":
-        add("dS", ["mul", ["avg", u], ["avg", v]])
+        add("dS", ["mul", ["avg", u], cj(["avg", v])])
     elif name == "dg-jump-jump":
-        add("dS", ["mul", ["jump", u], ["jump", v]])
+        add("dS", ["mul", ["jump", u], cj(["jump", v])])
     elif name == "dg-interior-penalty":
         ju, jv = ["jumpn", u], ["jumpn", v]
         add("dS", ["add", ["sub", ["neg", ["inner", ["avg", ["grad", u]], jv]], ["inner", ju, ["avg", ["grad", v]]]],
-                   ["mul", ["lit", 4.0], ["mul", ["jump", u], ["jump", v]]]])
+                   ["mul", ["lit", 4.0], ["mul", ["jump", u], cj(["jump", v])]]])
         if draw(st.booleans()):
             add("dx", ["inner", ["grad", u], ["grad", v]])
     elif name == "dg-upwind":
@@ -1034,14 +1046,24 @@ def template_specs(draw, profile=None):
         bn = ["dot", ["+", f], _n("+")]
         up = ["mul", ["lit", 0.5], ["add", bn, ["abs", bn]]]
         add("dS", ["mul", ["mul", up, ["sub", ["+", u], ["-", u]]], ["jump", v]])
+    elif name == "helmholtz-impedance":
+        # complex Helmholtz with an impedance boundary term:  (grad u, grad v) - k^2 (u, v) - i k <u, v>_ds
+        kk = draw(st.sampled_from([0.5, 2.5, 3.0]))
+        add("dx", ["sub", ["inner", ["grad", u], ["grad", v]], ["mul", ["lit", kk * kk], ["inner", u, v]]])
+        add("ds", ["inner", ["mul", ["clit", 0.0, -kk], u], v], sid=draw(st.sampled_from([None, 1])), md_={} if cell == "interval" else None)
+    elif name == "complex-vertex-mass":
+        spec["elements"] = [["el", "P", deg, {}]]
+        z = ["clit", draw(st.sampled_from([0.0, 0.5, -1.5])), draw(st.sampled_from([2.0, -0.7, 1.1]))]
+        side = draw(st.booleans())
+        add("dP", ["inner", ["mul", z, u], v] if side else ["inner", u, ["mul", z, v]], md_={})
     elif name == "nitsche-boundary":
-        add("ds", ["add", ["sub", ["neg", ["mul", ["dot", ["grad", u], _n()], v]], ["mul", ["dot", ["grad", v], _n()], u]], ["mul", ["lit", 10.0], ["mul", u, v]]],
+        add("ds", ["add", ["sub", ["neg", ["mul", ["dot", ["grad", u], _n()], cj(v)]], ["mul", cj(["dot", ["grad", v], _n()]), u]], ["mul", ["lit", 10.0], ["mul", u, cj(v)]]],
             sid=draw(st.sampled_from([None, 1])))
     elif name == "facet-normal-flux":
         spec["elements"] = [P, vecP]
         spec["args"] = [0]
         spec["coefs"] = [1]
-        add("ds", ["mul", ["dot", f, _n()], v])
+        add("ds", ["mul", ["dot", f, _n()], cj(v)])
     # optional scalar coefficient factor on every integral
     if name in ("mass", "stiffness", "dg-avg-avg", "dg-jump-jump", "curl-curl") and draw(st.booleans()):
         spec["elements"].append(["el", "P", 1, {}])
@@ -1059,7 +1081,7 @@ def forms(profile=None, grammar=3, templates=1):
     """Grammar-generated forms with a share of template instances (same profile: measures, cells, maxdeg, nonaffine)."""
     pr = dict(DEFAULT_PROFILE)
     pr.update(profile or {})
-    if not any(m in pr["measures"] or m == "dx" and "dx" in pr["measures"] for m in TEMPLATES.values()) or pr.get("tp") or pr.get("complex"):
+    if not any(m in pr["measures"] or m == "dx" and "dx" in pr["measures"] for m in TEMPLATES.values()) or pr.get("tp"):
         return form_specs(profile)
     tpl_profile = dict(profile or {})
     return st.one_of(*([form_specs(profile)] * grammar + [template_specs(tpl_profile)] * templates))
